@@ -359,6 +359,11 @@ func (s *c19Session) run(rng *rand.Rand, st *ledgerstore.Store, name, bucket, ph
 		if phase != "" && !strings.HasPrefix(sig, "C19/unscoped-disjunct:") {
 			sig = "C19/unscoped-statement-" + phase + ":" + method
 		}
+		if phase == "by-the-request-that-raced-a-ledger-creation" {
+			// one history, whatever the racing request happens to read: a single signature
+			sig = "C19/unscoped-read-by-the-request-whose-OpenLedger-raced-a-CreateLedger-in-its-bucket"
+			r.Seen("methods_of_the_racing_request_found_unscoped", method)
+		}
 		c.Violation(sig, map[string]any{"ledger": name, "bucket": bucket, "rows_of_bucket_in_system_ledgers": rows, "live_rows": live, "steps": s.steps, "sql": stmt.SQL, "problems": rep.Texts()})
 	}
 	if !shared && unscoped > 0 {
@@ -509,6 +514,56 @@ func runC19(r *core.Run) {
 		if c.Index < 2 {
 			r.Sample(map[string]any{"steps": s.steps})
 		}
+	})
+
+	// a ledger is created in the bucket WHILE another request opens the bucket's only ledger: the
+	// opening request counted the ledgers before the creation committed (deterministic interleaving at
+	// the count statement). Whatever that request itself does, every LATER request must be scoped again.
+	r.ForEach("opencreate", r.N(60, 1000), 0, func(c *core.Case) {
+		rng := c.Rng
+		s := c19NewSession(c, r, "opencreate")
+		defer s.db.Close()
+		const bucket = "shared"
+		if s.create("l1", bucket) == nil {
+			return
+		}
+		var l2 *ledgerstore.Store
+		fired := false
+		s.db.AfterSys = func(q string) {
+			up := strings.ToUpper(q)
+			if fired || !strings.Contains(up, "COUNT(") {
+				return
+			}
+			fired = true
+			s.db.AfterSys = nil
+			l2 = s.create("l2", bucket) // commits before the opener sees its (stale) count of 1
+		}
+		racing, _, err := s.d.OpenLedger(s.ctx, "l1")
+		s.db.AfterSys = nil
+		if err != nil || !fired || l2 == nil {
+			r.Inconclusive(fmt.Sprintf("open-during-create interleaving not produced: err=%v fired=%v", err, fired))
+			return
+		}
+		s.steps = append(s.steps, "OpenLedger(l1) counted the bucket before CreateLedger(l2) committed")
+		r.Count("open_during_create_interleavings", 1)
+		for k := 0; k < 1+rng.Intn(3); k++ {
+			s.run(rng, l2, "l2", bucket, "", 11)
+		}
+		// the racing request's own statements: it decided with a stale count; observed and counted, judged
+		// under a signature of its own (a window that closes with the next request)
+		s.run(rng, racing, "l1", bucket, "by-the-request-that-raced-a-ledger-creation", -1)
+		// every later request re-opens the ledger: all of its statements must be scoped
+		for k := 0; k < 2+rng.Intn(3); k++ {
+			st, _, err := s.d.OpenLedger(s.ctx, []string{"l1", "l2"}[k%2])
+			if err != nil {
+				r.Inconclusive("OpenLedger: " + err.Error())
+				return
+			}
+			for j := 0; j < 2; j++ {
+				s.run(rng, st, []string{"l1", "l2"}[k%2], bucket, "after-a-ledger-creation-raced-an-open", -1)
+			}
+		}
+		r.Eval("opencreate|"+fmt.Sprint(len(s.steps)), true)
 	})
 
 	// soft-deleted bucket: the deleted ledgers' rows are still in the bucket tables
